@@ -158,21 +158,21 @@ def linkIdx (G : CallGraph) : List (Nat × Nat) :=
     | _, _ => none
 
 def dispatchEdges (G : CallGraph) : List (Nat × Nat) :=
-  (G.sites.flatMap fun s => G.lits.filterMap fun l =>
-    if (ruleIdx G).contains (s.2, l.2) then some (s.1, l.1) else none) ++
-  (G.sites.flatMap fun s => (linkIdx G).filterMap fun fl =>
-    if fl.1 == s.2 then some (s.1, fl.2) else none)
+  ((ruleIdx G).flatMap fun r =>
+    (G.sites.filter fun s => s.2 == r.1).flatMap fun s =>
+      (G.lits.filter fun l => l.2 == r.2).map fun l => (s.1, l.1)) ++
+  ((linkIdx G).flatMap fun r => (G.sites.filter fun s => s.2 == r.1).map fun s => (s.1, r.2))
 
 /-- every way control gets from one function to another **except through a queue** -/
 def directEdges (G : CallGraph) : List (Nat × Nat) := G.calls ++ spawnEdges G ++ dispatchEdges G
 
-/-- nodes from which service code is reached without passing through a queue -/
-def danger (G : CallGraph) : List Nat := back (directEdges G) G.names.length (svcNodes G)
+/-- nodes from which service code is reached without passing through a queue (bit mask) -/
+def danger (G : CallGraph) : Nat := back (directEdges G) G.names.length (ofListB (svcNodes G))
 
-def entryCheckWith (G : CallGraph) (D : List Nat) : Bool :=
-  closedBack (directEdges G) D && (svcNodes G).all D.contains &&
-  ((spawnedRoots G).all fun r => !(D.contains r)) &&
-  D.all fun i => !(G.exported.contains i) || loopSideAPI.contains (nameOf G i)
+def entryCheckWith (G : CallGraph) (D : Nat) : Bool :=
+  closedBack (directEdges G) D && (svcNodes G).all (memB D) &&
+  ((spawnedRoots G).all fun r => !(memB D r)) &&
+  G.exported.all fun i => !(memB D i) || loopSideAPI.contains (nameOf G i)
 
 def entryCheck (G : CallGraph) : Bool := entryCheckWith G (danger G)
 
@@ -188,7 +188,8 @@ def reviewedCheck (G : CallGraph) : Bool :=
   G.facts.all (·.2) && !G.facts.isEmpty &&
   G.goRoots.all (fun r => r.1 < G.names.length) && G.timerRoots.all (· < G.names.length)
 
-def loopReach (G : CallGraph) : List Nat := fwd (directEdges G) G.names.length (consumerRoots G)
+/-- nodes reached from a consumer loop without passing through a queue (bit mask) -/
+def loopReach (G : CallGraph) : Nat := fwd (directEdges G) G.names.length (ofListB (consumerRoots G))
 
 def loopK (G : CallGraph) : List Nat := idxIn loopKeys G.keys
 
@@ -202,14 +203,14 @@ def postedLits (G : CallGraph) : List Nat :=
 
 /-- every invocation point is wired to a consumer loop; every posted closure is run from one -/
 def wiringCheck (G : CallGraph) : Bool :=
-  (loopSites G).all (loopReach G).contains && !(loopSites G).isEmpty &&
-  (postedLits G).all (loopReach G).contains
+  (loopSites G).all (memB (loopReach G)) && !(loopSites G).isEmpty &&
+  (postedLits G).all (memB (loopReach G))
 
 def sendNodes (G : CallGraph) : List Nat := G.sends.map (·.1)
 
 /-- every timer goroutine does reach an enqueue -/
 def timerEnqueueCheck (G : CallGraph) : Bool :=
-  G.timerRoots.all fun t => (fwd G.calls G.names.length [t]).any (sendNodes G).contains
+  G.timerRoots.all fun t => (sendNodes G).any (memB (fwd G.calls G.names.length (ofListB [t])))
 
 def allChecks (G : CallGraph) : Bool :=
   reviewedCheck G && entryCheck G && wiringCheck G && timerEnqueueCheck G
